@@ -323,6 +323,44 @@ def ev_zone(job, light):
     return evs
 
 
+def _zinc_extra(how, v):
+    """file:line projection for a zone read from main.zone which $INCLUDEs sub.zone:
+    fp = the message starts with "<one of the two files>:<n>: ", fi = 0 main / 1 sub, ln = n."""
+    import re
+    if how != "exc":
+        return {"fp": 0, "fi": 0, "ln": 0}
+    m = re.match(r"^(main\.zone|sub\.zone):(\d+): ", str(v))
+    if not m:
+        return {"fp": 0, "fi": 0, "ln": 0}
+    return {"fp": 1, "fi": 1 if m.group(1) == "sub.zone" else 0, "ln": min(int(m.group(2)), 1000000)}
+
+
+def ev_zinc(job, light):
+    """The zone text of the job is written to main.zone (which $INCLUDEs sub.zone) in a
+    directory of its own under the work directory of the run and read with allow_include."""
+    import os
+    import shutil
+    d = os.path.join(job["wd"], "zinc.%d" % os.getpid())
+    os.makedirs(d, exist_ok=True)
+    for fn, text in (("main.zone", job["s"]), ("sub.zone", job["sub"])):
+        with open(os.path.join(d, fn), "w", encoding="utf-8") as f:
+            f.write(text)
+    cwd = os.getcwd()
+    os.chdir(d)
+    evs = []
+    try:
+        for o in ([1, 1, 0, 1], [0, 1, 0, 1], [1, 1, 1, 1], [1, 0, 0, 1]):
+            rel, org, chk, ad = o
+            evs.append(call("zinc", o,
+                            lambda: dns.zone.from_file("main.zone", origin="example." if org else None, relativize=bool(rel),
+                                                       check_origin=bool(chk), allow_include=True),
+                            lambda z: z.to_text(), _zone_wire, _zinc_extra))
+    finally:
+        os.chdir(cwd)
+        shutil.rmtree(d, ignore_errors=True)
+    return evs
+
+
 def ev_msgt(job, light):
     s = job["s"]
     evs = []
@@ -344,7 +382,7 @@ def ev_optm(job, light):
     return evs
 
 
-KINDS = {"optm": ev_optm, "rdg": ev_rdt, "msg": ev_msg, "namew": ev_namew, "rdw": ev_rdw, "optw": ev_optw, "namet": ev_namet, "rdt": ev_rdt,
+KINDS = {"zinc": ev_zinc, "optm": ev_optm, "rdg": ev_rdt, "msg": ev_msg, "namew": ev_namew, "rdw": ev_rdw, "optw": ev_optw, "namet": ev_namet, "rdt": ev_rdt,
          "ttl": ev_ttl, "zone": ev_zone, "msgt": ev_msgt}
 _LIMITED = False
 
@@ -364,7 +402,7 @@ def _limit_memory():
 def run_job(job):
     """job -> trace; a crash of the driver itself becomes an event nobody matches."""
     _limit_memory()
-    tr = {k: v for k, v in job.items() if k != "light"}
+    tr = {k: v for k, v in job.items() if k not in ("light", "wd")}
     try:
         tr["ev"] = KINDS[job["kind"]](job, bool(job.get("light")))
     except BaseException as e:  # noqa: B902
@@ -416,7 +454,7 @@ def random_jobs(seed, n, table, bases):
             elif r < 0.7:
                 del s[p:p + rnd.randrange(1, 4)]
             else:
-                s[p:p] = list(rnd.choice(['\\', '"', '""', '(', ')', '\\256', '\\1', ' ', '\n', ';', '$', '99999999999', '-1']))
+                s[p:p] = list(rnd.choice(['\\\u00b2', '\\1\u00b2\u00b3', '\\12\u2460', '\\\u0663\u0663\u0663', '\u00e9', '\\', '"', '""', '(', ')', '\\256', '\\1', ' ', '\n', ';', '$', '99999999999', '-1']))
         return "".join(s)[:600]
 
     def base(kind):
